@@ -14,6 +14,7 @@ import (
 	"runtime/debug"
 	"strconv"
 	"strings"
+	"sync/atomic"
 	"testing"
 	"time"
 
@@ -164,6 +165,31 @@ type bcase struct {
 	// Answer: the suffrage height answered instead (dup / below-local / above-last)
 	Answer int
 	Seed   int64
+	// schedule of the remote's answers (kinds "splice", "scheduled-honest"):
+	// heights >= Splice are served from the foreign chain (0 = none); answers
+	// arrive in Order with GapMs between consecutive ranks; every served
+	// proof's Prove takes SlowMs longer
+	Splice int
+	Order  string
+	GapMs  int
+	SlowMs int
+}
+
+// slowProof is a remote proof whose Prove takes longer (a big suffrage, a busy
+// machine): it widens the window between a proof being checked against its
+// neighbours and being filed.
+type slowProof struct {
+	base.SuffrageProof
+	d  time.Duration
+	on *atomic.Bool
+}
+
+func (p slowProof) Prove(previous base.State) error {
+	if p.on.Load() {
+		time.Sleep(p.d)
+	}
+
+	return p.SuffrageProof.Prove(previous)
 }
 
 type cresult struct {
@@ -180,7 +206,10 @@ type cresult struct {
 var kinds = []string{
 	"honest", "honest", "honest", "shuffled", "dup", "omit", "below-local", "above-last", "foreign-one", "foreign-all",
 	"last-foreign", "last-older", "local-ahead", "fetch-error", "not-updated", "nongenesis-zero",
+	"splice", "splice", "splice", "scheduled-honest",
 }
+
+var orders = []string{"reverse", "reverse", "forward", "random", "simultaneous"}
 
 func genCase(id int, rng *rand.Rand, n int) bcase {
 	c := bcase{ID: id, Kind: kinds[rng.Intn(len(kinds))], Seed: rng.Int63()}
@@ -274,6 +303,33 @@ func genCase(id int, rng *rand.Rand, n int) bcase {
 		}
 	case "nongenesis-zero":
 		c.Local = -1
+	case "splice", "scheduled-honest":
+		// a short range so that the scheduled answers stay cheap
+		if c.Last < 1 {
+			c.Last = 1 + rng.Intn(n-1)
+		}
+
+		span := 2 + rng.Intn(7)
+		c.Local = c.Last - span
+		if c.Local < -1 {
+			c.Local = -1
+		}
+
+		need = c.Last - c.Local
+		if rng.Intn(3) != 0 {
+			c.Limit = int64(need + rng.Intn(3)) // one batch
+		}
+
+		c.Order = orders[rng.Intn(len(orders))]
+		c.GapMs = 1 + rng.Intn(2)
+		c.SlowMs = []int{0, 6, 10}[rng.Intn(3)]
+
+		if c.Kind == "splice" {
+			c.Splice = c.Local + 1 + rng.Intn(need)
+			if c.Splice < 1 {
+				c.Splice = 1
+			}
+		}
 	}
 
 	return c
@@ -297,6 +353,15 @@ func directed(n int) []bcase {
 		{Kind: "foreign-all", Local: 2, Last: 6, Limit: 10},
 		{Kind: "foreign-one", Local: -1, Last: 6, Limit: 10, Targets: []int{3}},
 		{Kind: "omit", Local: -1, Last: 6, Limit: 4, Targets: []int{5}},
+		{Kind: "splice", Local: -1, Last: 7, Limit: 8, Splice: 4, Order: "reverse", GapMs: 2, SlowMs: 10},
+		{Kind: "splice", Local: -1, Last: 7, Limit: 8, Splice: 4, Order: "forward", GapMs: 1, SlowMs: 6},
+		{Kind: "splice", Local: 3, Last: 9, Limit: 10, Splice: 6, Order: "reverse", GapMs: 1, SlowMs: 6},
+		{Kind: "splice", Local: 3, Last: 9, Limit: 10, Splice: 9, Order: "reverse", GapMs: 2, SlowMs: 10},
+		{Kind: "splice", Local: 3, Last: 9, Limit: 10, Splice: 4, Order: "random", GapMs: 1, SlowMs: 10},
+		{Kind: "splice", Local: -1, Last: 5, Limit: 3, Splice: 2, Order: "reverse", GapMs: 2, SlowMs: 10},
+		{Kind: "splice", Local: 10, Last: 16, Limit: 6, Splice: 13, Order: "simultaneous", GapMs: 1, SlowMs: 10},
+		{Kind: "scheduled-honest", Local: -1, Last: 7, Limit: 8, Order: "reverse", GapMs: 2, SlowMs: 10},
+		{Kind: "scheduled-honest", Local: 2, Last: 9, Limit: 3, Order: "random", GapMs: 1, SlowMs: 6},
 	}
 }
 
@@ -314,8 +379,51 @@ func runCase(w *world, c bcase) (res cresult) {
 	}
 
 	lastproof := w.main[c.Last]
-	if c.Kind == "last-foreign" {
+	if c.Kind == "last-foreign" || (c.Splice > 0 && c.Splice <= c.Last) {
 		lastproof = w.foreign[c.Last]
+	}
+
+	// schedule: rank of every requested height in the order of arrival
+	slowon := &atomic.Bool{}
+	slowon.Store(true)
+
+	rank := map[int]int{}
+
+	if c.Order != "" {
+		var hs []int
+		for h := c.Local + 1; h <= c.Last; h++ {
+			hs = append(hs, h)
+		}
+
+		switch c.Order {
+		case "reverse":
+			for i, j := 0, len(hs)-1; i < j; i, j = i+1, j-1 {
+				hs[i], hs[j] = hs[j], hs[i]
+			}
+		case "random":
+			rand.New(rand.NewSource(c.Seed)).Shuffle(len(hs), func(i, j int) { hs[i], hs[j] = hs[j], hs[i] })
+		}
+
+		for i, h := range hs {
+			rank[h] = i
+			if c.Order == "simultaneous" {
+				rank[h] = 0
+			}
+		}
+	}
+
+	scheduled := func(i int, p base.SuffrageProof) base.SuffrageProof {
+		if c.Order == "" {
+			return p
+		}
+
+		time.Sleep(time.Duration(rank[i]*c.GapMs) * time.Millisecond)
+
+		if c.SlowMs > 0 {
+			return slowProof{SuffrageProof: p, d: time.Duration(c.SlowMs) * time.Millisecond, on: slowon}
+		}
+
+		return p
 	}
 
 	target := map[int]bool{}
@@ -357,6 +465,10 @@ func runCase(w *world, c bcase) (res cresult) {
 				return w.ngz, true, nil
 			case c.Kind == "foreign-all":
 				return w.foreign[i], true, nil
+			case c.Splice > 0 && i >= c.Splice:
+				return scheduled(i, w.foreign[i]), true, nil
+			case c.Order != "":
+				return scheduled(i, w.main[i]), true, nil
 			case !target[i]:
 				return w.main[i], true, nil
 			}
@@ -394,6 +506,7 @@ func runCase(w *world, c bcase) (res cresult) {
 	}()
 
 	res.Fetched = len(fetched)
+	slowon.Store(false)
 
 	if res.Panicked {
 		return res
@@ -422,8 +535,8 @@ func runCase(w *world, c bcase) (res cresult) {
 	viol := func(clause, what string) {
 		if res.Sig == "" {
 			res.Sig = fmt.Sprintf("Build:%s:%s:%s", clause, c.Kind, batches)
-			res.What = fmt.Sprintf("Build(local suffrage height %d; remote last %d; batch limit %d; remote behaviour %s %v->%d) returned nil error and %d proofs: %s",
-				localh, c.Last, c.Limit, c.Kind, c.Targets, c.Answer, len(proofs), what)
+			res.What = fmt.Sprintf("Build(local suffrage height %d; remote last %d; batch limit %d; remote behaviour %s %v->%d; foreign chain from height %d; answers %s gap %dms, Prove +%dms) returned nil error and %d proofs: %s",
+				localh, c.Last, c.Limit, c.Kind, c.Targets, c.Answer, c.Splice, c.Order, c.GapMs, c.SlowMs, len(proofs), what)
 		}
 	}
 
@@ -581,7 +694,7 @@ func TestC18(t *testing.T) {
 
 	r := vlib.Start(t, "C18", vlib.LevelExploration)
 	defer r.Finish()
-	r.SetRule("case = (local suffrage height or none, remote's last suffrage height, batch limit, remote behaviour) given to the real isaac.SuffrageStateBuilder.Build with SetBatchLimit; the remote serves real suffrage proofs (blocks written by Writer+LocalFSWriter, proofs encoded and decoded, all passing IsValid): honest, delayed/shuffled, a duplicate of another height, a missing height, a height below the local state, a height above the last, proofs of a foreign chain (one / all / only the last), last proof older than local, fetch error, not updated, a suffrage-height-0 proof carried by a non-genesis block; cases run in child processes (case id logged before it starts) so that a panic in a job-worker goroutine is attributed to its case; distinct = (kind, local, last, limit, targets, answer); non-trivial = every case (each calls Build)")
+	r.SetRule("case = (local suffrage height or none, remote's last suffrage height, batch limit, remote behaviour) given to the real isaac.SuffrageStateBuilder.Build with SetBatchLimit; the remote serves real suffrage proofs (blocks written by Writer+LocalFSWriter, proofs encoded and decoded, all passing IsValid): honest, delayed/shuffled, a duplicate of another height, a missing height, a height below the local state, a height above the last, proofs of a foreign chain (one / all / only the last), last proof older than local, fetch error, not updated, two chains spliced at a random height inside a batch with scheduled answers (reverse / forward / random / simultaneous arrival, 1-2 ms apart) and proofs whose Prove takes 0/6/10 ms longer, the same schedules on the honest chain, a suffrage-height-0 proof carried by a non-genesis block; cases run in child processes (case id logged before it starts) so that a panic in a job-worker goroutine is attributed to its case; distinct = (kind, local, last, limit, targets, answer); non-trivial = every case (each calls Build)")
 	r.Assume("remote answers always pass SuffrageProof.IsValid(networkID), as the real fetch functions in launch guarantee; a nil proof with found=true is not generated")
 	r.Assume("judged only when Build returns a nil error: no nil entry; after dropping a repeated last element the suffrage heights are local+1, local+2, ... last; every proof Proves against its predecessor's state (the first against the local state); the last is the remote's last proof; no proofs at all is accepted only if the remote's last proof is not above the local state")
 
@@ -697,7 +810,7 @@ func TestC18(t *testing.T) {
 	}
 
 	for i, c := range cases {
-		fp := fmt.Sprintf("%s/%d/%d/%d/%v/%d", c.Kind, c.Local, c.Last, c.Limit, c.Targets, c.Answer)
+		fp := fmt.Sprintf("%s/%d/%d/%d/%v/%d/%d/%s/%d/%d", c.Kind, c.Local, c.Last, c.Limit, c.Targets, c.Answer, c.Splice, c.Order, c.GapMs, c.SlowMs)
 		batches := "single-batch"
 
 		if int64(c.Last-c.Local) > c.Limit {
